@@ -1,0 +1,57 @@
+//go:build verif
+
+package transport
+
+import (
+	"net"
+	"sync/atomic"
+)
+
+// Hooks for the verification harness (check C11). This file is only compiled with the build tag
+// `verif`; normal builds use verif_client_off.go, where verifClientYield is an empty, inlinable
+// function.
+
+// verifClientYieldFn is called at the named points of TarsClient.Send, connection.send and
+// connection.recv with the client and the net.Conn the calling goroutine works on. It may block:
+// that is how the harness holds a goroutine at that point.
+var verifClientYieldFn atomic.Value // of func(point string, tc *TarsClient, conn net.Conn)
+
+func verifClientYield(point string, tc *TarsClient, conn net.Conn) {
+	if f, ok := verifClientYieldFn.Load().(func(string, *TarsClient, net.Conn)); ok && f != nil {
+		f(point, tc, conn)
+	}
+}
+
+// VerifClientSetYield installs the function called at the yield points (nil: none). Install it
+// before the clients it is meant for are used.
+func VerifClientSetYield(f func(point string, tc *TarsClient, conn net.Conn)) {
+	if f == nil {
+		f = func(string, *TarsClient, net.Conn) {}
+	}
+	verifClientYieldFn.Store(f)
+}
+
+// VerifClientState is a racy snapshot of the client's shared connection state: the closed flag,
+// the net.Conn currently installed (nil before the first dial), the lengths of the send queue and
+// of the send-failure queue, and the outstanding-invocation counter.
+type VerifClientState struct {
+	IsClosed    bool
+	Conn        net.Conn
+	SendQueue   int
+	SendFailLen int
+	InvokeNum   int32
+}
+
+// VerifClientState reads the state under the connection lock.
+func (tc *TarsClient) VerifClientState() VerifClientState {
+	c := tc.conn
+	c.connLock.Lock()
+	defer c.connLock.Unlock()
+	return VerifClientState{
+		IsClosed:    c.isClosed,
+		Conn:        c.conn,
+		SendQueue:   len(tc.sendQueue),
+		SendFailLen: len(tc.sendFailQueue),
+		InvokeNum:   atomic.LoadInt32(&c.invokeNum),
+	}
+}
